@@ -151,12 +151,22 @@ Proof.
   rewrite madd_ok by exact H. cbn [mbind]. f_equal. f_equal; unfold sz; lia.
 Qed.
 
-Lemma mlim_val_conv : forall p ty l, (ty = BatchSize -> (N.of_nat (fst l) <= UMAX)%N) ->
-  mlim_val p true ty (limN l) = MOk (N.min (N.of_nat (lim_val ty l)) UMAX).
+Lemma mlim_val_conv : forall p fixed ty l, (ty = BatchSize -> (N.of_nat (fst l) <= UMAX)%N) ->
+  (fixed = false -> (N.of_nat (lim_val ty l) <= UMAX)%N) ->
+  mlim_val p fixed ty (limN l) = MOk (N.min (N.of_nat (lim_val ty l)) UMAX).
 Proof.
-  intros p ty l H. unfold mlim_val, limN, lim_val, sat_mul. cbn [fst snd]. destruct ty.
-  - f_equal. specialize (H eq_refl). lia.
-  - f_equal. lia.
+  intros p fixed ty l H Hf. unfold mlim_val, limN, sat_mul. cbn [fst snd]. destruct ty.
+  - unfold lim_val. f_equal. specialize (H eq_refl). lia.
+  - destruct fixed.
+    + unfold lim_val. f_equal. lia.
+    + specialize (Hf eq_refl). unfold lim_val in *. rewrite mmul_ok by (rewrite W_val; lia). f_equal. lia.
+Qed.
+
+Lemma mbound_eq : forall p fixed LN PN, (fixed = false -> (LN * PN <= UMAX)%N) ->
+  mbound p fixed LN PN = MOk (sat_mul LN PN).
+Proof.
+  intros p fixed LN PN Hf. unfold mbound, sat_mul. destruct fixed; [reflexivity|].
+  specialize (Hf eq_refl). rewrite mmul_ok by (rewrite W_val; lia). f_equal. lia.
 Qed.
 
 (** the items in flight: at most [n], sizes at most [smax] *)
@@ -203,12 +213,15 @@ End Conv.
 
 (** * the components of one [build_batch] call, repaired code, either profile *)
 Section Components.
-Context {A : Type} (sizeN : A -> N) (p : profile) (ty : limit_type).
+Context {A : Type} (sizeN : A -> N) (p : profile) (fixed : bool) (ty : limit_type).
 Context (n : nat) (smax LN PN : N).
 Hypothesis Hn : (N.of_nat n + 2 < W)%N.
 Hypothesis HL1 : (1 <= LN)%N.
 Hypothesis HL : (LN <= UMAX)%N.
 Hypothesis HP1 : (1 <= PN)%N.
+(** the pinned code ([fixed = false]) is covered where its two products do not overflow *)
+Hypothesis Hfx : fixed = false ->
+  (xmax ty (N.of_nat n) smax <= UMAX)%N /\ (LN * PN <= UMAX)%N.
 
 Notation sz := (sz sizeN).
 Notation X := (xmax ty (N.of_nat n) smax).
@@ -220,10 +233,11 @@ Lemma W_UMAX : (W = UMAX + 1)%N.
 Proof. reflexivity. Qed.
 
 Lemma mlim_val_bnd : forall l, bnd l ->
-  mlim_val p true ty (limN (lim_from sz l)) = MOk (N.min (N.of_nat (lim_val ty (lim_from sz l))) UMAX).
+  mlim_val p fixed ty (limN (lim_from sz l)) = MOk (N.min (N.of_nat (lim_val ty (lim_from sz l))) UMAX).
 Proof.
-  intros l Hb. apply mlim_val_conv. intros _.
-  destruct (lim_from_bnd sizeN ty n smax l Hb) as [_ Hc]. pose proof W_UMAX. lia.
+  intros l Hb. destruct (lim_from_bnd sizeN ty n smax l Hb) as [Hv Hc]. apply mlim_val_conv.
+  - intros _. pose proof W_UMAX. lia.
+  - intros Hf. destruct (Hfx Hf) as [Hx _]. lia.
 Qed.
 
 Lemma val_le_X : forall l, bnd l -> (N.of_nat (lim_val ty (lim_from sz l)) <= X)%N.
@@ -234,7 +248,7 @@ Proof. intros l Hb. destruct (lim_from_bnd sizeN ty n smax l Hb) as [_ Hc]. lia.
 
 (** batch_from *)
 Lemma mbatch_from_eq : forall src acc, bnd (acc ++ src) ->
-  mbatch_from sizeN p true ty LN acc (limN (lim_from sz acc)) src
+  mbatch_from sizeN p fixed ty LN acc (limN (lim_from sz acc)) src
   = MOk (batch_from sz ty effL acc (lim_from sz acc) src).
 Proof.
   induction src as [|x src IH]; intros acc Hb; cbn [mbatch_from batch_from]; [reflexivity|].
@@ -249,12 +263,13 @@ Qed.
 
 (** buffer fill *)
 Lemma mfill_eq : forall rest buf, bnd (buf ++ rest) ->
-  mfill sizeN p true ty LN PN (limN (lim_from sz buf)) buf rest
+  mfill sizeN p fixed ty LN PN (limN (lim_from sz buf)) buf rest
   = MOk (fill sz ty (effL * effP) (lim_from sz buf) buf rest).
 Proof.
   induction rest as [|x rest IH]; intros buf Hb; cbn [mfill fill];
     assert (Hb0 : bnd buf) by (eapply bnd_app_l; exact Hb);
-    rewrite (mlim_val_bnd _ Hb0); cbn [mbind]; unfold mbound; cbn [mbind];
+    rewrite (mlim_val_bnd _ Hb0); cbn [mbind];
+    rewrite mbound_eq by (intros Hf; apply (Hfx Hf)); cbn [mbind];
     rewrite (cmp_bound LN PN X _ HL1 HL HP1 (val_le_X _ Hb0)).
   - destruct (lim_val ty (lim_from sz buf) <=? effL * effP); reflexivity.
   - destruct (lim_val ty (lim_from sz buf) <=? effL * effP); [|reflexivity].
@@ -264,7 +279,8 @@ Qed.
 
 (** sort_by_key *)
 Lemma minsert_by_eq : forall x l, minsert_by sizeN x l = insert_by sz x l.
-Proof.
+Proof using.
+  clear Hn HL1 HL HP1 Hfx.
   intros x. induction l as [|y l IH]; [reflexivity|]. cbn [minsert_by insert_by].
   replace (sizeN x <=? sizeN y)%N with (sz x <=? sz y).
   - rewrite IH. reflexivity.
@@ -272,7 +288,7 @@ Proof.
     destruct (N.leb_spec (sizeN x) (sizeN y)); destruct (Nat.leb_spec (N.to_nat (sizeN x)) (N.to_nat (sizeN y))); try reflexivity; lia.
 Qed.
 Lemma msort_by_eq : forall l, msort_by sizeN l = sort_by sz l.
-Proof.
+Proof using.
   induction l as [|x l IH]; [reflexivity|]. cbn [msort_by sort_by]. rewrite IH. apply minsert_by_eq.
 Qed.
 
@@ -292,7 +308,7 @@ Lemma len_ok : (N.of_nat len + 2 < W)%N.
 Proof. destruct Hsb as [H _]. lia. Qed.
 
 Lemma msz_eq : forall site s e, s <= e -> e <= len ->
-  msz sizeN p true ty sb site (N.of_nat s) (N.of_nat e) = MOk (N.min (N.of_nat (szf s e)) UMAX).
+  msz sizeN p fixed ty sb site (N.of_nat s) (N.of_nat e) = MOk (N.min (N.of_nat (szf s e)) UMAX).
 Proof.
   intros site s e Hse He. unfold msz.
   replace ((N.of_nat s <=? N.of_nat e)%N) with true by (symmetry; apply N.leb_le; lia).
@@ -301,7 +317,7 @@ Proof.
 Qed.
 
 Lemma msz1_eq : forall s, s < len ->
-  msz1 sizeN p true ty sb (N.of_nat s) = MOk (N.min (N.of_nat (szf s (S s))) UMAX).
+  msz1 sizeN p fixed ty sb (N.of_nat s) = MOk (N.min (N.of_nat (szf s (S s))) UMAX).
 Proof.
   intros s Hs. unfold msz1.
   replace ((N.of_nat s <? N.of_nat len)%N) with true by (symmetry; apply N.ltb_lt; lia).
@@ -312,7 +328,7 @@ Lemma szf_le_X : forall s e, (N.of_nat (szf s e) <= X)%N.
 Proof. intros s e. apply val_le_X. apply bnd_slice. exact Hsb. Qed.
 
 Lemma mff_eq : forall rem start fuel, start + rem = len -> rem <= fuel ->
-  mff sizeN p true ty sb LN fuel (N.of_nat start) = MOk (N.of_nat (ff_start szf kk rem start)).
+  mff sizeN p fixed ty sb LN fuel (N.of_nat start) = MOk (N.of_nat (ff_start szf kk rem start)).
 Proof.
   pose proof len_ok as Hlen.
   induction rem as [|r IH]; intros start fuel Hs Hf.
@@ -334,7 +350,7 @@ Proof. intros q [l|]; reflexivity. Qed.
 
 Lemma mfs_loop_eq : forall fuel s e prev,
   LoopInv szf kk len s e prev -> (N.of_nat prev <= X)%N ->
-  mfs_loop sizeN p true ty sb LN fuel (N.of_nat s) (N.of_nat e) (N.min (N.of_nat prev) UMAX)
+  mfs_loop sizeN p fixed ty sb LN fuel (N.of_nat s) (N.of_nat e) (N.min (N.of_nat prev) UMAX)
   = olift (fs_loop szf kk len fuel s e prev).
 Proof.
   pose proof len_ok as Hlen.
@@ -387,7 +403,7 @@ Proof.
 Qed.
 
 Lemma mfind_subseq_eq :
-  mfind_subseq sizeN p true ty sb LN = olift (find_subseq szf kk len).
+  mfind_subseq sizeN p fixed ty sb LN = olift (find_subseq szf kk len).
 Proof.
   pose proof len_ok as Hlen.
   unfold mfind_subseq, find_subseq.
